@@ -30,9 +30,10 @@ const (
 	KTryLock
 	KTryRLock
 	KEnd
+	KLockWait // trace only: Lock found readers, announced itself (new readers now block) and waits for them to drain
 )
 
-var kindNames = [...]string{"Start", "Lock", "Unlock", "RLock", "RUnlock", "Get", "Put", "Once", "OnceDone", "Yield", "TryLock", "TryRLock", "End"}
+var kindNames = [...]string{"Start", "Lock", "Unlock", "RLock", "RUnlock", "Get", "Put", "Once", "OnceDone", "Yield", "TryLock", "TryRLock", "End", "LockWait"}
 
 func (k Kind) String() string { return kindNames[k] }
 
@@ -109,8 +110,12 @@ type thread struct {
 	tok     byte
 }
 
+// rw models sync.RWMutex (and Mutex, which never has readers) including writer preference: a Lock that finds readers
+// announces itself (pend) and from then on new RLock calls block until that writer has come and gone - which is what
+// makes a recursive read lock deadlock-prone in Go.
 type rw struct {
 	writer  int // -1 none
+	pend    int // writer that announced itself and waits for the readers to drain, -1 none
 	readers map[int]int
 }
 
@@ -273,10 +278,19 @@ func (e *Explorer) run(prefix []int) *Exec {
 		switch r.kind {
 		case KLock:
 			l := locks[r.obj]
-			return l == nil || (l.writer < 0 && len(l.readers) == 0)
+			if l == nil {
+				return true
+			}
+			if l.writer >= 0 {
+				return false
+			}
+			if l.pend >= 0 { // writers queue behind the announced one
+				return l.pend == t.id && len(l.readers) == 0
+			}
+			return true // acquires, or announces itself when there are readers
 		case KRLock:
 			l := locks[r.obj]
-			return l == nil || l.writer < 0
+			return l == nil || (l.writer < 0 && l.pend < 0)
 		case KOnce:
 			o := onces[r.obj]
 			return o == nil || o.done || o.running < 0
@@ -286,7 +300,7 @@ func (e *Explorer) run(prefix []int) *Exec {
 	getLock := func(o uintptr) *rw {
 		l := locks[o]
 		if l == nil {
-			l = &rw{writer: -1, readers: map[int]int{}}
+			l = &rw{writer: -1, pend: -1, readers: map[int]int{}}
 			locks[o] = l
 		}
 		return l
@@ -365,7 +379,16 @@ func (e *Explorer) run(prefix []int) *Exec {
 		st := Step{Tid: t.id, Kind: r.kind, Obj: oidx(r.obj)}
 		switch r.kind {
 		case KLock:
-			getLock(r.obj).writer = t.id
+			l := getLock(r.obj)
+			if len(l.readers) > 0 {
+				// not acquired: the thread stays at this operation, but readers arriving from now on block
+				l.pend = t.id
+				st.Kind = KLockWait
+				x.Trace = append(x.Trace, st)
+				e.res.Steps++
+				continue
+			}
+			l.writer, l.pend = t.id, -1
 		case KUnlock:
 			l := getLock(r.obj)
 			if l.writer != t.id {
@@ -375,12 +398,12 @@ func (e *Explorer) run(prefix []int) *Exec {
 		case KRLock:
 			getLock(r.obj).readers[t.id]++
 		case KTryLock:
-			if l := getLock(r.obj); l.writer < 0 && len(l.readers) == 0 {
+			if l := getLock(r.obj); l.writer < 0 && l.pend < 0 && len(l.readers) == 0 {
 				l.writer = t.id
 				ans.OK = true
 			}
 		case KTryRLock:
-			if l := getLock(r.obj); l.writer < 0 {
+			if l := getLock(r.obj); l.writer < 0 && l.pend < 0 {
 				l.readers[t.id]++
 				ans.OK = true
 			}
